@@ -254,7 +254,11 @@ class Report:
         self.selftests: dict = {}
 
     # -- bookkeeping
-    def add_tlc(self, res, label=""):
+    def add_tlc(self, res, label="", expect_violation=False):
+        if res.violated and not expect_violation:
+            # the reference semantics itself is inconsistent (and TLC stopped early): machinery problem, never a library violation
+            from harness.tlc import MachineryError
+            raise MachineryError(f"model theorem violated on the reference spec ({label}): {res.violated}")
         self.cov["states"] += res.distinct_states
         self.cov["transitions"] += res.states_generated
         self.cov.setdefault("tlc_runs", []).append(
